@@ -265,11 +265,14 @@ def check(repo, run, tier):
     g(unitrules.require_all_new_table, repo, run, 'C08.R6')
     g(unitrules.removed_root_excepted, repo, run, 'C08.R1')
     g(unitrules.errors_constructible, repo, run, 'C08.R7')
+    g(unitrules.error_wrapping, repo, run, 'C08.R7')
     g.done()
 
 
 def mutants(repo):
     return [
+        Mutant('non-node-operand-as-second-node', lambda r: in_func(r, 'node.decorator_factory', "if not isinstance(other, ConfigNode):", "if isinstance(other, ConfigNode):"), ['C08.R7']),
+        Mutant('api-entry-touches-missing-context', lambda r: in_func(r, 'errors.api_entry', "if orig_exp is not None:", "if orig_exp is None:"), ['C08.R7']),
         Mutant('removed-root-not-excepted', lambda r: in_func(r, 'ComposedNode.ayns.on_merge_impl', "                    removed.add(path)\n", ""), ['C08.R1']),
         Mutant('require-all-new-skips-self-by-default', lambda r: in_func(r, 'ComposedNode.ayns._require_all_new', "exceptions=None, include_self=True):", "exceptions=None, include_self=False):"), ['C08.R6']),
         Mutant('new-key-check-dropped', lambda r: delete_stmt(r, 'ComposedNode.ayns.on_merge_impl', lambda t: t.startswith('value.ayns._require_all_new')), ['C08.R1']),
